@@ -328,3 +328,606 @@ Proof. split; [exact grid_numpoints_example | exact grid_numpoints_half_even]. Q
 Example isometry3d_hypotheses_satisfiable :
   vdot NumR (1, 0, 0) (1, 0, 0) = 1 /\ vdot NumR (0, 1, 0) (0, 1, 0) = 1 /\ vdot NumR (1, 0, 0) (0, 1, 0) = 0.
 Proof. v3_start. repeat split; ring. Qed.
+
+(* ================================================================================================ *)
+(* The glue around the per-point kernels (Model/GeometryGlue.v; proofs in Proofs/GeometryGlueProofs.v *)
+(* — every element type / numeric instance, axiom-free — and Proofs/GeometryGlueRealProofs.v — NumR). *)
+(*                                                                                                    *)
+(* Vocabulary: an n-d array is `mkNd shape data` (flat data in C order), `nd_wf` its invariant        *)
+(* length data = product of the shape; `ravel` / `unravel` translate between a full multi-index and   *)
+(* the flat position; `nd_get a idx` is a[idx]; a Points object is an n-d array of triples; a raise   *)
+(* of the library is `inl <exception kind>`; an argument passed through numpy.asarray is              *)
+(* (shape, flat data).                                                                                *)
+(* ================================================================================================ *)
+From Coq Require Import QArith Permutation.
+From Flocq Require Import Core.Raux.
+From Arim Require Import Base.NumQ Model.GeometryGlue Proofs.GeometryGlueProofs Proofs.GeometryGlueRealProofs.
+From Arim Require Model.Blocks.
+Local Close Scope Q_scope.
+Local Open Scope nat_scope.
+
+(* ---- point arrays of any shape --------------------------------------------------------------------- *)
+(* multi-indices and flat C-order positions are in bijection, for EVERY shape (sizes 0 and 1 included) *)
+Theorem ndarray_index_bijection : forall shape : list nat,
+  (forall k, k < size shape -> in_bounds shape (unravel shape k) = true /\ ravel shape (unravel shape k) = k) /\
+  (forall idx, in_bounds shape idx = true -> ravel shape idx < size shape /\ unravel shape (ravel shape idx) = idx).
+Proof.
+  intros shape. split.
+  - intros k H. split; [exact (unravel_in_bounds shape k H) | exact (ravel_unravel shape k H)].
+  - intros idx H. split; [exact (ravel_lt shape idx H) | exact (unravel_ravel shape idx H)].
+Qed.
+
+(* Points.__iter__ / Points.enumerate (numpy.ndindex): the k-th item is the multi-index unravel k
+   with the k-th point of the flat data — the right-most index varies the quickest *)
+Theorem points_iteration_order : forall (T : Type) (P : points T), nd_wf P ->
+  ndindex (nd_shape P) = map (unravel (nd_shape P)) (seq 0 (size (nd_shape P))) /\
+  map fst (points_enumerate P) = ndindex (nd_shape P) /\
+  map snd (points_enumerate P) = map Some (nd_data P).
+Proof.
+  intros T P W. split; [exact (ndindex_unravel (nd_shape P))|]. destruct (points_enumerate_spec P W) as [H1 H2].
+  split; [rewrite H1; symmetry; exact (ndindex_unravel (nd_shape P)) | exact H2].
+Qed.
+
+(* Points.__init__: the last dimension must be 3 (ValueError), a 0-d array has none (IndexError);
+   shape / ndim / size are those of coords without its last axis; coords gives the object back *)
+Theorem points_init_shape_check : forall (T : Type) (ashape : list nat) (flat : list T),
+  match points_init ashape flat with
+  | inr P => exists s, ashape = s ++ [3] /\ P = mkNd s (group3 flat)
+  | inl IndexError => ashape = []
+  | inl ValueError => exists s n, ashape = s ++ [n] /\ n <> 3
+  | inl _ => False
+  end.
+Proof. exact @points_init_spec. Qed.
+
+Theorem points_shape_size : forall (T : Type) (P : points T),
+  points_init (points_coords_shape P) (points_coords_flat P) = inr P /\
+  points_size P = size (nd_shape P) /\ points_ndim P = length (nd_shape P).
+Proof. intros T P. split; [exact (points_init_coords P) | exact (points_size_spec P)]. Qed.
+
+(* Points.reshape (an int, a tuple, one negative entry = inferred dimension): a success keeps the
+   points and their C order and only changes the shape, to one with the same number of points and
+   as many dimensions as asked; every failure is a ValueError *)
+Theorem points_reshape_keeps_points : forall (T : Type) (P : points T) (a : shape_arg), nd_wf P ->
+  match points_reshape P a with
+  | inr Q => nd_data Q = nd_data P /\ size (nd_shape Q) = size (nd_shape P) /\ nd_wf Q /\
+             length (nd_shape Q) = length (shape_of_arg a)
+  | inl e => e = ValueError
+  end.
+Proof. exact @points_reshape_spec. Qed.
+
+(* to_1d_points / reshape round trip for ANY shape: to_1d_points is the flat data with shape
+   (numpoints,); every shape with the same number of points is accepted, reshaping back returns
+   the original object; and the same point sits at the indices that have the same flat position *)
+Theorem points_reshape_round_trip : forall (T : Type) (P : points T) (s : list nat),
+  points_to_1d P = inr (mkNd [size (nd_shape P)] (nd_data P)) /\
+  (size s = size (nd_shape P) ->
+   points_reshape P (RsTuple (map Z.of_nat s)) = inr (mkNd s (nd_data P)) /\
+   points_reshape (mkNd s (nd_data P)) (RsTuple (map Z.of_nat (nd_shape P))) = inr P /\
+   forall idx idx', in_bounds (nd_shape P) idx = true -> in_bounds s idx' = true ->
+     ravel (nd_shape P) idx = ravel s idx' -> nd_get P idx = nd_get (mkNd s (nd_data P)) idx').
+Proof. exact @points_reshape_round_trip_full. Qed.
+
+(* Points.translate with one direction per point, Points.rotate, Points.norm2: same shape, the
+   entry at every multi-index is the per-point result (every numeric instance) *)
+Theorem points_translate_per_point : forall (T : Type) (N : Num T) (P : points T) dflat idx p d,
+  nd_shape P <> [] -> nd_get P idx = Some p -> nth_error (group3 dflat) (ravel (nd_shape P) idx) = Some d ->
+  exists Q, points_translate N P (points_coords_shape P) dflat = inr Q /\ nd_shape Q = nd_shape P /\
+            nd_get Q idx = Some (vadd N p d).
+Proof. exact @points_translate_each. Qed.
+
+Theorem points_methods_pointwise : forall (T : Type) (N : Num T) (P : points T) R ce a b c idx,
+  points_translate N P [3] [a; b; c] = inr (nd_map (fun p => vadd N p (a, b, c)) P) /\
+  (nd_shape (points_rotate N P R ce) = nd_shape P /\
+   nd_get (points_rotate N P R ce) idx = option_map (rotate N R ce) (nd_get P idx)) /\
+  (nd_shape (points_norm2 N P) = nd_shape P /\
+   nd_get (points_norm2 N P) idx = option_map (norm2_v N) (nd_get P idx)).
+Proof.
+  intros T N P R ce a b c idx. split; [exact (points_translate_one N P a b c)|].
+  split; [exact (points_rotate_get N P R ce idx) | exact (points_norm2_get N P idx)].
+Qed.
+
+(* ---- box selector on arrays of any shape ------------------------------------------------------------- *)
+(* the function AS WRITTEN (out = ones, the list valid_ones in the order xmin, ymin, zmin, xmax, ymax,
+   zmax, the loop of logical_and) equals the per-point selector of Model/Geometry.v applied entry by
+   entry, for every numeric instance (binary64 included) and every one of the 64 subsets of bounds;
+   it raises (ValueError) exactly when the three shapes differ *)
+Theorem rectbox_loop_is_pointwise : forall (T : Type) (N : Num T) (x y z : nd T) xmin xmax ymin ymax zmin zmax,
+  (nd_wf x -> nd_wf y -> nd_wf z -> nd_shape y = nd_shape x -> nd_shape z = nd_shape x ->
+   rectbox_free N x y z xmin xmax ymin ymax zmin zmax
+   = inr (mkNd (nd_shape x) (map (in_rectbox N xmin xmax ymin ymax zmin zmax)
+                                 (zip3v (nd_data x) (nd_data y) (nd_data z))))) /\
+  ((nd_shape x <> nd_shape y \/ nd_shape y <> nd_shape z) <->
+   rectbox_free N x y z xmin xmax ymin ymax zmin zmax = inl ValueError).
+Proof.
+  intros T N x y z xmin xmax ymin ymax zmin zmax. split.
+  - exact (rectbox_free_pointwise N x y z xmin xmax ymin ymax zmin zmax).
+  - exact (rectbox_free_shape_error N x y z xmin xmax ymin ymax zmin zmax).
+Qed.
+
+(* the Points method never raises and is the per-point selector mapped over the object *)
+Theorem rectbox_points_is_pointwise : forall (T : Type) (N : Num T) (P : points T) xmin xmax ymin ymax zmin zmax,
+  nd_wf P -> rectbox_points N P xmin xmax ymin ymax zmin zmax = inr (nd_map (in_rectbox N xmin xmax ymin ymax zmin zmax) P).
+Proof. exact @rectbox_points_pointwise. Qed.
+
+(* Grid.points_in_rectbox (the inherited method on the (numx, numy, numz) object): the mask is the
+   outer product of three per-axis masks, each computed from ITS axis vector and ITS two bounds *)
+Theorem rectbox_grid_is_separable : forall (T : Type) (N : Num T) xmin xmax ymin ymax zmin zmax dx dy dz g bxmin bxmax bymin bymax bzmin bzmax,
+  grid_init N xmin xmax ymin ymax zmin zmax (PxSeq [dx; dy; dz]) = inr g ->
+  rectbox_grid N g bxmin bxmax bymin bymax bzmin bzmax
+  = inr (mkNd [length (go_xvect g); length (go_yvect g); length (go_zvect g)]
+           (flatten_c (map (fun mx => map (fun my => map (fun mz => mx && my && mz)
+                                                        (axis_mask N bzmin bzmax (go_zvect g)))
+                                         (axis_mask N bymin bymax (go_yvect g)))
+                           (axis_mask N bxmin bxmax (go_xvect g))))).
+Proof.
+  intros T N xmin xmax ymin ymax zmin zmax dx dy dz g b1 b2 b3 b4 b5 b6 H.
+  destruct (grid_init_structure N _ _ _ _ _ _ _ _ _ g H) as (_ & _ & _ & Hp & _).
+  exact (rectbox_grid_separable N g b1 b2 b3 b4 b5 b6 Hp).
+Qed.
+
+Local Open Scope R_scope.
+
+(* over the reals, entry by entry and for every shape: the mask has the shape of the input and is true
+   at a multi-index exactly when every SUPPLIED bound holds (inclusively) for the point there *)
+Theorem rectbox_points_any_shape : forall (P : points R) xmin xmax ymin ymax zmin zmax, nd_wf P ->
+  exists M, rectbox_points NumR P xmin xmax ymin ymax zmin zmax = inr M /\ nd_shape M = nd_shape P /\ nd_wf M /\
+    forall idx, in_bounds (nd_shape P) idx = true ->
+      exists p b, nd_get P idx = Some p /\ nd_get M idx = Some b /\
+        (b = true <->
+         (forall v, xmin = Some v -> v <= vx p) /\ (forall v, xmax = Some v -> vx p <= v) /\
+         (forall v, ymin = Some v -> v <= vy p) /\ (forall v, ymax = Some v -> vy p <= v) /\
+         (forall v, zmin = Some v -> v <= vz p) /\ (forall v, zmax = Some v -> vz p <= v)).
+Proof. exact rectbox_points_entry_R. Qed.
+
+Theorem rectbox_free_any_shape : forall (x y z : nd R) xmin xmax ymin ymax zmin zmax,
+  nd_wf x -> nd_wf y -> nd_wf z -> nd_shape y = nd_shape x -> nd_shape z = nd_shape x ->
+  exists M, rectbox_free NumR x y z xmin xmax ymin ymax zmin zmax = inr M /\ nd_shape M = nd_shape x /\
+    forall idx, in_bounds (nd_shape x) idx = true ->
+      exists a b c m, nd_get x idx = Some a /\ nd_get y idx = Some b /\ nd_get z idx = Some c /\
+        nd_get M idx = Some m /\
+        (m = true <->
+         (forall v, xmin = Some v -> v <= a) /\ (forall v, xmax = Some v -> a <= v) /\
+         (forall v, ymin = Some v -> v <= b) /\ (forall v, ymax = Some v -> b <= v) /\
+         (forall v, zmin = Some v -> v <= c) /\ (forall v, zmax = Some v -> c <= v)).
+Proof. exact rectbox_free_entry_R. Qed.
+
+(* ---- Grid.__init__ as a whole ---------------------------------------------------------------------------- *)
+(* pixel_size: one number is the same size on the three axes, a sequence of three gives one size per
+   axis in the order x, y, z, a sequence of any other length is a ValueError (every numeric instance) *)
+Theorem grid_pixel_size_unpacking : forall (T : Type) (N : Num T) xmin xmax ymin ymax zmin zmax,
+  (forall d, grid_init N xmin xmax ymin ymax zmin zmax (PxScalar d)
+             = grid_init N xmin xmax ymin ymax zmin zmax (PxSeq [d; d; d])) /\
+  (forall l, length l <> 3%nat -> grid_init N xmin xmax ymin ymax zmin zmax (PxSeq l) = inl ValueError).
+Proof.
+  intros T N xmin xmax ymin ymax zmin zmax. split.
+  - intros d. exact (grid_init_scalar N xmin xmax ymin ymax zmin zmax d).
+  - intros l H. exact (grid_init_bad_length N xmin xmax ymin ymax zmin zmax l H).
+Qed.
+
+(* the object: each axis vector comes from ITS OWN bounds and pixel size, the point array has shape
+   (numx, numy, numz), is well formed, is the x-major flattening of the 'ij' meshgrid and is the grid
+   of Model/Geometry.v (so every earlier grid theorem applies to it); every numeric instance *)
+Theorem grid_object_structure : forall (T : Type) (N : Num T) xmin xmax ymin ymax zmin zmax dx dy dz g,
+  grid_init N xmin xmax ymin ymax zmin zmax (PxSeq [dx; dy; dz]) = inr g ->
+  grid_axis_err N xmin xmax dx = inr (go_xvect g) /\
+  grid_axis_err N ymin ymax dy = inr (go_yvect g) /\
+  grid_axis_err N zmin zmax dz = inr (go_zvect g) /\
+  go_points g = mkNd [length (go_xvect g); length (go_yvect g); length (go_zvect g)]
+                     (flatten_c (meshgrid_ij (go_xvect g) (go_yvect g) (go_zvect g))) /\
+  nd_wf (go_points g) /\
+  grid N xmin xmax ymin ymax zmin zmax dx dy dz
+  = Some (mkGrid (go_xvect g) (go_yvect g) (go_zvect g) (meshgrid_ij (go_xvect g) (go_yvect g) (go_zvect g))).
+Proof. exact @grid_init_structure. Qed.
+
+(* it raises exactly when an axis raises, with the exception of the FIRST failing axis (x, y, z):
+   ZeroDivisionError for a zero pixel size on a non-degenerate axis, ValueError for a negative number
+   of points; the axis model of Model/Geometry.v is this one with the exception kind forgotten *)
+Theorem grid_error_is_first_failing_axis : forall (T : Type) (N : Num T) xmin xmax ymin ymax zmin zmax dx dy dz e,
+  (grid_init N xmin xmax ymin ymax zmin zmax (PxSeq [dx; dy; dz]) = inl e <->
+   grid_axis_err N xmin xmax dx = inl e \/
+   ((exists v, grid_axis_err N xmin xmax dx = inr v) /\
+    (grid_axis_err N ymin ymax dy = inl e \/
+     ((exists v, grid_axis_err N ymin ymax dy = inr v) /\ grid_axis_err N zmin zmax dz = inl e)))) /\
+  (forall lo hi d, grid_axis_err N lo hi d = inl e ->
+     neqb N lo hi = false /\
+     ((e = ZeroDivisionError /\ neqb N d (n0 N) = true) \/
+      (e = ValueError /\ neqb N d (n0 N) = false /\ (grid_numpoints N lo hi d < 0)%Z))) /\
+  (forall lo hi d, grid_axis N lo hi d = match grid_axis_err N lo hi d with inr v => Some v | inl _ => None end).
+Proof.
+  intros T N xmin xmax ymin ymax zmin zmax dx dy dz e. split; [exact (grid_init_error N _ _ _ _ _ _ _ _ _ e)|].
+  split; [intros lo hi d; exact (grid_axis_err_kinds N lo hi d e) | intros lo hi d; exact (grid_axis_err_option N lo hi d)].
+Qed.
+
+(* THE WHOLE OBJECT over the reals, for every one of the 8 combinations of degenerate / non-degenerate
+   axes and per-axis pixel sizes (each axis: min = max, or 0 < pixel <= |max - min|): it is built; the
+   count of each axis is 1 or the integer nearest to L/d + 1 of ITS bounds and ITS pixel size; the point
+   at (ix, iy, iz) is (x_ix, y_iy, z_iz) with x_i = xmin + i (xmax - xmin)/(numx - 1) (xmin on a degenerate
+   axis); the axis vectors start and end exactly on the bounds; it warns exactly for decreasing axes *)
+Theorem grid_all_degenerate_combinations : forall xmin xmax ymin ymax zmin zmax dx dy dz,
+  axis_okR xmin xmax dx -> axis_okR ymin ymax dy -> axis_okR zmin zmax dz ->
+  exists g, grid_init NumR xmin xmax ymin ymax zmin zmax (PxSeq [dx; dy; dz]) = inr g /\
+    nd_shape (go_points g) = [axis_count xmin xmax dx; axis_count ymin ymax dy; axis_count zmin zmax dz] /\
+    nd_wf (go_points g) /\
+    (go_numx g = axis_count xmin xmax dx /\ go_numy g = axis_count ymin ymax dy /\
+     go_numz g = axis_count zmin zmax dz) /\
+    (forall ix iy iz, (ix < axis_count xmin xmax dx)%nat -> (iy < axis_count ymin ymax dy)%nat ->
+                      (iz < axis_count zmin zmax dz)%nat ->
+       nd_get (go_points g) [ix; iy; iz]
+       = Some (axis_coord xmin xmax dx ix, axis_coord ymin ymax dy iy, axis_coord zmin zmax dz iz)) /\
+    (vect_min (go_xvect g) = inr xmin /\ vect_max (go_xvect g) = inr xmax /\
+     vect_min (go_yvect g) = inr ymin /\ vect_max (go_yvect g) = inr ymax /\
+     vect_min (go_zvect g) = inr zmin /\ vect_max (go_zvect g) = inr zmax) /\
+    go_warnings g = (if Rlt_bool xmax xmin then [AxX] else []) ++ (if Rlt_bool ymax ymin then [AxY] else [])
+                    ++ (if Rlt_bool zmax zmin then [AxZ] else []).
+Proof. exact grid_init_R. Qed.
+
+(* resample(new_pixel_size) is Grid(the same six bounds, new_pixel_size) *)
+Theorem grid_resample_same_bounds : forall xmin xmax ymin ymax zmin zmax dx dy dz g px,
+  axis_okR xmin xmax dx -> axis_okR ymin ymax dy -> axis_okR zmin zmax dz ->
+  grid_init NumR xmin xmax ymin ymax zmin zmax (PxSeq [dx; dy; dz]) = inr g ->
+  grid_resample NumR g px = grid_init NumR xmin xmax ymin ymax zmin zmax px.
+Proof. exact grid_resample_R. Qed.
+
+(* to_oriented_points: the flattened grid and one identity orientation per point (any instance) *)
+Theorem grid_to_oriented_points_is_flat_identity : forall (T : Type) (N : Num T) (g : grid_obj),
+  grid_to_oriented_points N g
+  = inr (mkNd [size (nd_shape (go_points g))] (nd_data (go_points g)),
+         mkNd [size (nd_shape (go_points g))] (repeat (mid3 N) (size (nd_shape (go_points g))))).
+Proof. exact @grid_to_oriented_points_spec. Qed.
+
+(* grid_centred_at_point: AssertionError for a negative size, ZeroDivisionError for a zero pixel size,
+   otherwise Grid(centre -+ size/2, (dx, dy, dz)) with dx = size_x/(numpoints_x - 1) (size_x itself when
+   numpoints_x = 1) — each step handed to ITS axis *)
+Theorem grid_centred_error_branches : forall cx cy cz sx sy sz px,
+  (sx < 0 \/ sy < 0 \/ sz < 0 -> grid_centred_obj NumR cx cy cz sx sy sz px = inl AssertionError) /\
+  (0 <= sx -> 0 <= sy -> 0 <= sz -> px = 0 -> grid_centred_obj NumR cx cy cz sx sy sz px = inl ZeroDivisionError) /\
+  (0 <= sx -> 0 <= sy -> 0 <= sz -> px <> 0 ->
+   grid_centred_obj NumR cx cy cz sx sy sz px
+   = grid_init NumR (cx - sx / 2) (cx + sx / 2) (cy - sy / 2) (cy + sy / 2) (cz - sz / 2) (cz + sz / 2)
+       (PxSeq [centred_step NumR sx (centred_numpoints NumR sx px);
+               centred_step NumR sy (centred_numpoints NumR sy px);
+               centred_step NumR sz (centred_numpoints NumR sz px)])).
+Proof. exact grid_centred_obj_cases. Qed.
+
+(* the whole centred grid for every combination of zero and positive sizes: it is built, every axis
+   has an odd number of points (1 for a zero size) and the point in the middle of the three axes is
+   EXACTLY the requested centre *)
+Theorem grid_centred_all_combinations : forall cx cy cz sx sy sz px, 0 <= sx -> 0 <= sy -> 0 <= sz -> 0 < px ->
+  exists g, grid_centred_obj NumR cx cy cz sx sy sz px = inr g /\
+    nd_shape (go_points g) = [centred_count sx px; centred_count sy px; centred_count sz px] /\
+    nd_wf (go_points g) /\
+    nd_get (go_points g) [centred_mid sx px; centred_mid sy px; centred_mid sz px] = Some (cx, cy, cz) /\
+    Z.odd (Z.of_nat (centred_count sx px)) = true /\ Z.odd (Z.of_nat (centred_count sy px)) = true /\
+    Z.odd (Z.of_nat (centred_count sz px)) = true.
+Proof. exact grid_centred_obj_R. Qed.
+
+(* ---- CoordinateSystem: the setters as a state machine ------------------------------------------------------ *)
+(* the constructor succeeds exactly when the three arguments have shape (3,) and i_hat, j_hat pass
+   np.isclose(norm2, 1.0); it then holds exactly the given vectors; every failure is a ValueError; it
+   is the three assignments origin, i_hat, j_hat in this order (every numeric instance) *)
+Theorem cs_constructor_spec : forall (T : Type) (N : Num T) (o i j : arr T),
+  (forall c, cs_new N o i j = inr c <->
+     as_vec3 o = inr (c_origin c) /\ as_vec3 i = inr (c_i c) /\ as_vec3 j = inr (c_j c) /\ cs_ok N c) /\
+  (forall e, cs_new N o i j = inl e -> e = ValueError) /\
+  (forall c0, cs_new N o i j = match cs_assign N c0 (SetOrigin o) with
+                              | inl e => inl e
+                              | inr c1 => match cs_assign N c1 (SetI i) with
+                                          | inl e => inl e
+                                          | inr c2 => cs_assign N c2 (SetJ j)
+                                          end
+                              end).
+Proof.
+  intros T N o i j. split; [intros c; exact (cs_new_spec N o i j c)|].
+  split; [intros e; exact (cs_new_err N o i j e) | intros c0; exact (cs_new_is_three_assignments N o i j c0)].
+Qed.
+
+(* one assignment: refused (always a ValueError) => the three slots are unchanged; accepted => only
+   its own slot changes and holds the assigned value; the verdict depends on the value only *)
+Theorem cs_assignment_effect : forall (T : Type) (N : Num T) (c : cstate) (o : cs_op),
+  match cs_assign N c o with
+  | inl e => e = ValueError /\ cs_step N c o = c /\ accepts N o = Some e
+  | inr c' =>
+      cs_step N c o = c' /\ accepts N o = None /\
+      match o with
+      | SetOrigin a => as_vec3 a = inr (c_origin c') /\ c_i c' = c_i c /\ c_j c' = c_j c
+      | SetI a => as_vec3 a = inr (c_i c') /\ unit_ok N (c_i c') = true /\ c_origin c' = c_origin c /\ c_j c' = c_j c
+      | SetJ a => as_vec3 a = inr (c_j c') /\ unit_ok N (c_j c') = true /\ c_origin c' = c_origin c /\ c_i c' = c_i c
+      end
+  end.
+Proof. exact @cs_assignment_effect_full. Qed.
+
+(* ANY history of assignments on one object, accepted and refused in any order and number: each slot
+   holds the LAST value accepted for it (the initial one if none), both stored vectors still pass the
+   unit-norm check, k_hat and basis_matrix are those of the current slots, and the list of verdicts is
+   a function of the assigned values only *)
+Theorem cs_history_last_accepted : forall (T : Type) (N : Num T) (c : cstate) (ops : list cs_op),
+  c_origin (cs_run N c ops) = last (accepted_origin ops) (c_origin c) /\
+  c_i (cs_run N c ops) = last (accepted_i N ops) (c_i c) /\
+  c_j (cs_run N c ops) = last (accepted_j N ops) (c_j c) /\
+  c_k_hat N (cs_run N c ops) = vcross N (last (accepted_i N ops) (c_i c)) (last (accepted_j N ops) (c_j c)) /\
+  c_basis_matrix N (cs_run N c ops)
+  = mtrans (last (accepted_i N ops) (c_i c), last (accepted_j N ops) (c_j c),
+            vcross N (last (accepted_i N ops) (c_i c)) (last (accepted_j N ops) (c_j c))) /\
+  (cs_ok N c -> cs_ok N (cs_run N c ops)) /\
+  cs_trace N c ops = map (accepts N) ops.
+Proof. exact @cs_history_full. Qed.
+
+(* copy() and translate(v) of an object whose vectors pass the check always succeed: the same vectors,
+   the origin moved by v, for v of shape (3,) and — numpy broadcasting of origin + v — for a scalar or a
+   (1,) array added to the three coordinates; every other shape of v is a ValueError (every instance) *)
+Theorem cs_copy_translate_accepted : forall (T : Type) (N : Num T) (c : cstate), cs_ok N c ->
+  c_copy N c = inr c /\
+  (forall v d, translate_vector v = inr d -> c_translate N c v = inr (mkCst (vadd N (c_origin c) d) (c_i c) (c_j c))) /\
+  (forall d : vec3 T, translate_vector (arr_of_vec3 d) = inr d) /\
+  (forall a : T, translate_vector ([], [a]) = inr (a, a, a) /\ translate_vector ([1%nat], [a]) = inr (a, a, a)) /\
+  (forall (v : arr T) e, translate_vector v = inl e -> c_translate N c v = inl ValueError).
+Proof.
+  intros T N c H. split; [exact (c_copy_ok N c H)|].
+  split; [intros v d E; exact (c_translate_vec N c v d H E)|].
+  split; [exact translate_vector_of_vec3|]. split; [intros a; split; reflexivity|].
+  intros v e E. exact (c_translate_bad_shape N c v e E).
+Qed.
+
+(* rotate(M, centre) of an exactly orthonormal frame by an orthonormal matrix: accepted, the origin is
+   rotated about the centre, the axes are M i_hat and M j_hat, the frame is again exactly orthonormal *)
+Theorem cs_rotate_keeps_frame : forall (c : cstate) (M : mat3 R) ce, cols_orthonormal NumR M -> frame_exact c ->
+  c_rotate NumR c M ce = inr (mkCst (rotate NumR M ce (c_origin c)) (mvec NumR M (c_i c)) (mvec NumR M (c_j c)))
+  /\ frame_exact (mkCst (rotate NumR M ce (c_origin c)) (mvec NumR M (c_i c)) (mvec NumR M (c_j c))).
+Proof. exact c_rotate_R. Qed.
+
+(* EVERY REACHABLE STATE: start from any exactly orthonormal object (e.g. GCS) and apply any history of
+   calls among: an assignment of the origin (accepted or not), any REFUSED assignment of i_hat / j_hat,
+   translate, rotate by an orthonormal matrix about any centre, copy — each replacing the object when
+   it succeeds.  The frame stays exactly orthonormal, and in that state convert_from_gcs and
+   convert_to_gcs are inverse of each other on point arrays of any shape and preserve every distance *)
+Theorem cs_reachable_states_convert_exactly : forall (c : cstate) (ks : list cs_call) (P Q : points R),
+  frame_exact c -> Forall call_rigid ks ->
+  let c' := cs_calls NumR c ks in
+  frame_exact c' /\
+  c_convert_from_gcs NumR c' (c_convert_to_gcs NumR c' P) = P /\
+  c_convert_to_gcs NumR c' (c_convert_from_gcs NumR c' P) = P /\
+  distance_table NumR (nd_data (c_convert_from_gcs NumR c' P)) (nd_data (c_convert_from_gcs NumR c' Q))
+    = distance_table NumR (nd_data P) (nd_data Q) /\
+  distance_table NumR (nd_data (c_convert_to_gcs NumR c' P)) (nd_data (c_convert_to_gcs NumR c' Q))
+    = distance_table NumR (nd_data P) (nd_data Q).
+Proof.
+  intros c ks P Q Hc Hks c'. pose proof (cs_calls_exact c ks Hc Hks) as He.
+  split; [exact He | exact (cs_conversions_R c' P Q He)].
+Qed.
+
+(* OBSERVATION (behaviour of the library, outside the property's premise "orthonormal frame"): the
+   setters check the norm of each vector and never their orthogonality.  CoordinateSystem(O, i, i) is
+   accepted; its k_hat is the null vector and its two conversions are not inverse of each other.  This
+   is why an accepted assignment of i_hat / j_hat is excluded from the histories of the theorem above *)
+Theorem cs_setters_do_not_check_orthogonality :
+  exists c, cs_new NumR (arr_of_vec3 (0, 0, 0)) (arr_of_vec3 (1, 0, 0)) (arr_of_vec3 (1, 0, 0)) = inr c /\
+            c_k_hat NumR c = (0, 0, 0) /\
+            c_convert_to_gcs NumR c (c_convert_from_gcs NumR c (mkNd [] [(0, 1, 0)])) <> mkNd [] [(0, 1, 0)].
+Proof. exact cs_no_orthogonality_check. Qed.
+
+(* convert_from_gcs_pairwise on a point array and an array of origins of ANY shapes: three arrays of
+   shape pshape ++ oshape whose entry at ip ++ io is the coordinate of the converted point P[ip] minus
+   the coordinate of origins[io] (every numeric instance) *)
+Theorem pairwise_any_shape : forall (T : Type) (N : Num T) (c : cstate) (P O : points T) ip io p o,
+  nd_wf O -> nd_get P ip = Some p -> nd_get O io = Some o ->
+  let q := cs_convert_from_gcs N (c_origin c) (c_i c) (c_j c) p in
+  let '(X, Y, Z) := c_convert_from_gcs_pairwise N c P O in
+  nd_shape X = (nd_shape P ++ nd_shape O)%list /\ nd_shape Y = (nd_shape P ++ nd_shape O)%list /\
+  nd_shape Z = (nd_shape P ++ nd_shape O)%list /\
+  nd_get X (ip ++ io) = Some (nsub N (vx q) (vx o)) /\
+  nd_get Y (ip ++ io) = Some (nsub N (vy q) (vy o)) /\
+  nd_get Z (ip ++ io) = Some (nsub N (vz q) (vz o)).
+Proof. exact @pairwise_get. Qed.
+
+(* ... and what the triple means for an orthonormal frame: the coordinates of the point in the frame
+   with the same axes whose origin is the GCS position of origins[io]; its norm is the distance
+   between the point and that origin *)
+Theorem pairwise_is_frame_at_origin : forall (c : cstate) (p o : vec3 R), frame_exact c ->
+  let q := cs_convert_from_gcs NumR (c_origin c) (c_i c) (c_j c) p in
+  (vx q - vx o, vy q - vy o, vz q - vz o)
+  = cs_convert_from_gcs NumR (cs_convert_to_gcs NumR (c_origin c) (c_i c) (c_j c) o) (c_i c) (c_j c) p
+  /\ sqrt ((vx q - vx o) * (vx q - vx o) + (vy q - vy o) * (vy q - vy o) + (vz q - vz o) * (vz q - vz o))
+     = vdist NumR p (cs_convert_to_gcs NumR (c_origin c) (c_i c) (c_j c) o).
+Proof. exact pairwise_meaning_R. Qed.
+
+(* ---- distance_pairwise on Points objects ---------------------------------------------------------------------- *)
+(* the PUBLIC function on two 1-d Points objects, composed with the blockwise theorem of C13: for every
+   block size >= 1, thread count >= 1, order of execution of the blocks, with or without a preallocated
+   `out=` of the right shape WHATEVER IT CONTAINED, the result is the distance table of Model/Geometry.v
+   (to which distance_table_spec and frame_change_preserves_distance_table apply); every instance *)
+Theorem distance_pairwise_points_is_distance_table : forall (T : Type) (N : Num T) (P1 P2 : points T) n1 n2 out
+    block_size numthreads (sched : list Blocks.dist_views -> list Blocks.dist_views),
+  nd_shape P1 = [n1] -> nd_shape P2 = [n2] -> out_fits P1 P2 out ->
+  (1 <= block_size)%Z -> (1 <= numthreads)%Z -> (forall l, Permutation l (sched l)) ->
+  distance_pairwise_points N P1 P2 out block_size numthreads sched
+  = inr (distance_table N (nd_data P1) (nd_data P2)).
+Proof. exact @distance_pairwise_points_table. Qed.
+
+(* its shape checks: anything but two 1-d point arrays is an InvalidDimension; the coordinate views of
+   a Points object always agree, so the only InvalidShape left is a wrongly shaped `out=` *)
+Theorem distance_pairwise_points_shape_checks : forall (T : Type) (N : Num T) (P1 P2 : points T) out block_size numthreads sched,
+  ((length (nd_shape P1) <> 1 \/ length (nd_shape P2) <> 1)%nat ->
+   distance_pairwise_points N P1 P2 out block_size numthreads sched = inl InvalidDimension) /\
+  (forall n1 n2 r c content, nd_shape P1 = [n1] -> nd_shape P2 = [n2] ->
+     (r, c) <> (length (nd_data P1), length (nd_data P2)) ->
+     distance_pairwise_points N P1 P2 (Some (r, c, content)) block_size numthreads sched = inl InvalidShape).
+Proof.
+  intros T N P1 P2 out bs nt sched. split.
+  - exact (distance_pairwise_points_dimension N P1 P2 out bs nt sched).
+  - intros n1 n2 r c content S1 S2 Hne. exact (distance_pairwise_points_out_shape N P1 P2 n1 n2 r c content bs nt sched S1 S2 Hne).
+Qed.
+
+(* a set of points against itself (the same object twice, or an equal copy): symmetric, zero diagonal *)
+Theorem distance_table_self_symmetric_zero_diagonal : forall (ps : list (vec3 R)) i j,
+  (i < length ps)%nat -> (j < length ps)%nat ->
+  nth j (nth i (distance_table NumR ps ps) []) 0 = nth i (nth j (distance_table NumR ps ps) []) 0 /\
+  nth i (nth i (distance_table NumR ps ps) []) 0 = 0.
+Proof. exact distance_table_self_R. Qed.
+
+(* ---- closest_point, rigid motions of point arrays ----------------------------------------------------------------- *)
+(* Points.closest_point on an array of any shape: the FLAT C-order index of a point at minimal
+   distance, the first one in case of ties; ValueError (numpy.argmin) on an empty array *)
+Theorem closest_point_is_first_nearest : forall (P : points R) x y z,
+  (forall k, closest_point NumR P x y z = inr k ->
+     (k < length (nd_data P))%nat /\
+     (forall j, (j < length (nd_data P))%nat ->
+        vdist NumR (nth k (nd_data P) (0, 0, 0)) (x, y, z) <= vdist NumR (nth j (nd_data P) (0, 0, 0)) (x, y, z)) /\
+     (forall j, (j < k)%nat ->
+        vdist NumR (nth k (nd_data P) (0, 0, 0)) (x, y, z) < vdist NumR (nth j (nd_data P) (0, 0, 0)) (x, y, z))) /\
+  (nd_data P = [] -> closest_point NumR P x y z = inl ValueError).
+Proof.
+  intros P x y z. split; [intros k H; exact (closest_point_spec_R P x y z k H) | exact (closest_point_empty P x y z)].
+Qed.
+
+(* Points.rotate by an orthonormal matrix about any centre and Points.translate by one direction keep
+   the shape and the whole pairwise distance table, for point arrays of any shape *)
+Theorem points_rigid_motions_any_shape : forall (P Q : points R) (M : mat3 R) ce a b c, orthonormal NumR M ->
+  (nd_shape (points_rotate NumR P M ce) = nd_shape P /\
+   distance_table NumR (nd_data (points_rotate NumR P M ce)) (nd_data (points_rotate NumR Q M ce))
+   = distance_table NumR (nd_data P) (nd_data Q)) /\
+  exists P' Q', points_translate NumR P [3%nat] [a; b; c] = inr P' /\
+                points_translate NumR Q [3%nat] [a; b; c] = inr Q' /\ nd_shape P' = nd_shape P /\
+                distance_table NumR (nd_data P') (nd_data Q') = distance_table NumR (nd_data P) (nd_data Q).
+Proof. exact points_rigid_motions_R. Qed.
+
+(* ---- Points.allclose / are_points_close ------------------------------------------------------------------------------- *)
+(* on two point arrays of the same shape: true exactly when every pair of corresponding points is
+   close (|a - b| <= atol + rtol |b| on the three coordinates); a different NUMBER of dimensions:
+   False; the same number of dimensions but shapes numpy cannot broadcast: a ValueError (not False);
+   every numeric instance *)
+Theorem points_allclose_spec : forall (T : Type) (N : Num T) (P Q : points T) atol rtol,
+  (nd_wf P -> nd_wf Q -> nd_shape Q = nd_shape P ->
+   points_allclose N P Q atol rtol
+   = inr (forallb (fun pq => vclose N atol rtol (fst pq) (snd pq)) (combine (nd_data P) (nd_data Q)))) /\
+  (length (nd_shape P) <> length (nd_shape Q) -> points_allclose N P Q atol rtol = inr false) /\
+  (length (nd_shape P) = length (nd_shape Q) -> bcast_shape (nd_shape P) (nd_shape Q) = None ->
+   points_allclose N P Q atol rtol = inl ValueError).
+Proof.
+  intros T N P Q atol rtol. split; [exact (points_allclose_same_shape N P Q atol rtol)|].
+  split; [exact (points_allclose_ndim N P Q atol rtol) | exact (points_allclose_unbroadcastable N P Q atol rtol)].
+Qed.
+
+(* OBSERVATION (the docstring says "True if and only if the two sets of points have the same shape and
+   coordinates close"): only the number of dimensions is compared and numpy broadcasts — a (1,) array
+   holding one point is "close" to a (2,) array holding that point twice.  The statement
+   "allclose = true -> same shape" is refuted *)
+Theorem points_allclose_same_shape_refuted :
+  exists P Q : points R, nd_wf P /\ nd_wf Q /\ nd_shape P <> nd_shape Q /\ points_allclose NumR P Q 1 0 = inr true.
+Proof. exact points_allclose_broadcasts_R. Qed.
+
+(* ---- non-vacuity of the hypotheses above, and the glue executed ------------------------------------------------------ *)
+(* one non-degenerate, one degenerate and one coarse axis satisfy the hypothesis of
+   grid_all_degenerate_combinations *)
+Example grid_axes_hypotheses_satisfiable : axis_okR 0 1 (/ 4) /\ axis_okR 2 2 7 /\ axis_okR 3 0 (3 / 2).
+Proof.
+  split; [right; rewrite Rminus_0_r, Rabs_R1; lra|]. split; [left; reflexivity|].
+  right. replace (0 - 3) with (- (3)) by ring. rewrite Rabs_Ropp, Rabs_right by lra. lra.
+Qed.
+
+(* GCS is exactly orthonormal, and a history with a translation, a quarter turn about a centre, a copy,
+   an assignment of the origin and a refused assignment of i_hat satisfies the hypothesis of
+   cs_reachable_states_convert_exactly *)
+Example cs_history_hypotheses_satisfiable :
+  frame_exact (mkCst (0, 0, 0) (1, 0, 0) (0, 1, 0)) /\
+  Forall call_rigid [CTranslate (arr_of_vec3 (1, 2, 3)); CRotate ((0, -1, 0), (1, 0, 0), (0, 0, 1)) (Some (1, 0, 0)); CCopy;
+                     CAssign (SetOrigin (arr_of_vec3 (5, 6, 7))); CAssign (SetI ([2%nat], [1; 2]))].
+Proof.
+  split; [exact gcs_frame_exact|].
+  apply Forall_cons; [exact I|]. apply Forall_cons; [cbn [call_rigid]; v3_start; v3_split; ring|].
+  apply Forall_cons; [exact I|]. apply Forall_cons; [exact I|]. apply Forall_cons; [|apply Forall_nil].
+  cbn. discriminate.
+Qed.
+
+(* the glue computes (exact rationals, vm_compute); every value below is the answer of the real library
+   on the same input (notes/prover_C17_TIE.md) *)
+Local Open Scope Q_scope.
+Example glue_runs_on_rationals :
+  let qs := map inject_Z in
+  let P : points Q := mkNd [2; 2]%nat (group3 (qs [0; 1; 2; 3; 4; 5; 6; 7; 8; 9; 10; 11]%Z)) in
+  let a3 (p q r : Q) : arr Q := ([3%nat], [p; q; r]) in
+  let cs1 := mkCst (1, 1, 1)%Q (0, 1, 0)%Q (0, 0, 1)%Q in
+  let Rz : mat3 Q := ((0, -1, 0), (1, 0, 0), (0, 0, 1))%Q in
+  (* Points: init, iteration order, reshape *)
+  (match points_init [2; 4; 3]%nat (qs (map Z.of_nat (seq 0 24))) with inr p => Some (nd_shape p) | _ => None end,
+   points_init [3; 2]%nat (qs [0; 1; 2; 3; 4; 5]%Z), points_init []%nat [1%Q])
+  = (Some [2; 4]%nat, inl ValueError, inl IndexError) /\
+  map fst (points_enumerate P) = [[0; 0]; [0; 1]; [1; 0]; [1; 1]]%nat /\
+  points_to_1d P = inr (mkNd [4%nat] (nd_data P)) /\
+  (match points_reshape P (RsTuple [-1; 1]%Z) with inr p => Some (nd_shape p) | _ => None end,
+   match points_reshape P (RsTuple [-1; -1]%Z) with inl e => Some e | _ => None end,
+   match points_reshape P (RsInt 3) with inl e => Some e | _ => None end)
+  = (Some [4; 1]%nat, Some ValueError, Some ValueError) /\
+  (* box selector on 2-d arrays, on a Points object, on a Grid *)
+  rectbox_free NumQ (mkNd [2; 3]%nat (qs [0; 1; 2; 3; 4; 5]%Z)) (mkNd [2; 3]%nat (qs [5; 4; 3; 2; 1; 0]%Z))
+               (mkNd [2; 3]%nat (qs [1; 1; 1; 2; 2; 2]%Z)) (Some 1%Q) None None (Some 4%Q) None (Some 1%Q)
+  = inr (mkNd [2; 3]%nat [false; true; true; false; false; false]) /\
+  rectbox_points NumQ P (Some 3%Q) None None None None (Some 8%Q) = inr (mkNd [2; 2]%nat [false; true; true; false]) /\
+  (* Grid(0, 1, 0, 2, 5, 5, (0.5, 1, 0.25)), its box mask, resample(0.5), a reversed grid, error kinds *)
+  (match grid_init NumQ 0 1 0 2 5 5 (PxSeq [1 # 2; 1; 1 # 4])%Q with
+   | inr g => Some (nd_shape (go_points g), go_xvect g, go_yvect g, go_zvect g, go_warnings g,
+                    nd_get (go_points g) [2; 1; 0]%nat,
+                    option_map (@nd_data bool) (match rectbox_grid NumQ g (Some (1 # 2)%Q) None None (Some 1%Q) None None with
+                                                | inr m => Some m | inl _ => None end),
+                    match grid_resample NumQ g (PxScalar (1 # 2)%Q) with
+                    | inr r => Some (nd_shape (go_points r), go_yvect r) | inl _ => None end)
+   | inl _ => None end)
+  = Some ([3; 3; 1]%nat, [0; 1 # 2; 1]%Q, [0; 1; 2]%Q, [5%Q], [], Some (1, 1, 5)%Q,
+          Some [false; false; false; true; true; false; true; true; false],
+          Some ([3; 5; 1]%nat, [0; 1 # 2; 1; 3 # 2; 2]%Q)) /\
+  (match grid_init NumQ 1 0 0 0 3 2 (PxScalar (1 # 2)%Q) with
+   | inr g => Some (nd_shape (go_points g), go_xvect g, go_zvect g, go_warnings g) | inl _ => None end)
+  = Some ([3; 1; 3]%nat, [1; 1 # 2; 0]%Q, [3; 5 # 2; 2]%Q, [AxX; AxZ]) /\
+  (match grid_init NumQ 0 1 0 2 5 5 (PxSeq [1 # 2; 1])%Q with inl e => Some e | _ => None end,
+   match grid_init NumQ 0 1 0 2 5 5 (PxSeq [1 # 2; 0; 1])%Q with inl e => Some e | _ => None end,
+   match grid_init NumQ 0 1 0 2 5 5 (PxSeq [1 # 2; 1; 0])%Q with inr g => Some (nd_shape (go_points g)) | _ => None end,
+   match grid_init NumQ 0 1 0 0 0 0 (PxScalar (-2)%Q) with inr g => Some (nd_shape (go_points g)) | _ => None end,
+   match grid_init NumQ 0 1 0 0 0 0 (PxScalar (-2 # 5)%Q) with inl e => Some e | _ => None end)
+  = (Some ValueError, Some ZeroDivisionError, Some [3; 3; 1]%nat, Some [0; 1; 1]%nat, Some ValueError) /\
+  (* grid_centred_at_point(0, 0, 0, 1, 0, 2, 0.5) and its error branches *)
+  (match grid_centred_obj NumQ 0 0 0 1 0 2 (1 # 2) with
+   | inr g => Some (nd_shape (go_points g), go_xvect g, go_zvect g, nd_get (go_points g) [1; 0; 2]%nat) | inl _ => None end)
+  = Some ([3; 1; 5]%nat, [-1 # 2; 0; 1 # 2]%Q, [-1; -1 # 2; 0; 1 # 2; 1]%Q, Some (0, 0, 0)%Q) /\
+  (match grid_centred_obj NumQ 0 0 0 1 (-1) 2 (1 # 2) with inl e => Some e | _ => None end,
+   match grid_centred_obj NumQ 0 0 0 1 0 2 0 with inl e => Some e | _ => None end)
+  = (Some AssertionError, Some ZeroDivisionError) /\
+  (* CoordinateSystem: a history of eight assignments, five of them refused; constructor; methods *)
+  (let hist := [SetI (a3 2 0 0)%Q; SetI ([1; 3]%nat, [1; 0; 0]%Q); SetJ (a3 (3 # 5) (4 # 5) 0)%Q;
+                SetOrigin ([2%nat], [1; 2]%Q); SetOrigin (a3 5 6 7)%Q; SetI (a3 0 0 1)%Q;
+                SetJ (a3 0 0 (11 # 10))%Q; SetJ ([], [1%Q])] in
+   (cs_trace NumQ cs1 hist, cs_run NumQ cs1 hist, c_k_hat NumQ (cs_run NumQ cs1 hist)))
+  = ([Some ValueError; Some ValueError; None; Some ValueError; None; None; Some ValueError; Some ValueError],
+     mkCst (5, 6, 7)%Q (0, 0, 1)%Q (3 # 5, 4 # 5, 0)%Q, (-4 # 5, 3 # 5, 0)%Q) /\
+  (cs_new NumQ (a3 1 1 1)%Q (a3 0 2 0)%Q (a3 0 0 1)%Q, cs_new NumQ (a3 1 1 1)%Q (a3 0 1 0)%Q (a3 0 0 1)%Q,
+   c_rotate NumQ cs1 Rz (Some (1, 0, 0)%Q), c_translate NumQ cs1 (a3 1 2 3)%Q, c_copy NumQ cs1,
+   c_translate NumQ cs1 ([], [1]), c_translate NumQ cs1 ([1%nat], [2]), c_translate NumQ cs1 ([1; 3]%nat, [1; 2; 3]),
+   c_isclose NumQ cs1 (mkCst (1 + (1 # 1000000000), 1, 1)%Q (0, 1, 0)%Q (0, 0, 1)%Q) (atol_default NumQ) 0%Q)
+  = (inl ValueError, inr cs1, inr (mkCst (0, 0, 1)%Q (-1, 0, 0)%Q (0, 0, 1)%Q),
+     inr (mkCst (2, 3, 4)%Q (0, 1, 0)%Q (0, 0, 1)%Q), inr cs1,
+     inr (mkCst (2, 2, 2)%Q (0, 1, 0)%Q (0, 0, 1)%Q), inr (mkCst (3, 3, 3)%Q (0, 1, 0)%Q (0, 0, 1)%Q), inl ValueError, true) /\
+  (* convert_from_gcs_pairwise: points of shape (2, 1) against origins of shape (3,) *)
+  (let '(X, Y, Z) := c_convert_from_gcs_pairwise NumQ cs1 (mkNd [2; 1]%nat [(1, 2, 3); (4, 5, 6)]%Q)
+                       (mkNd [3%nat] [(1, 0, 0); (0, 1, 0); (0, 0, 1)]%Q) in (nd_shape X, nd_data X, nd_data Y, nd_data Z))
+  = ([2; 1; 3]%nat, [0; 1; 1; 3; 4; 4]%Q, [2; 1; 2; 5; 4; 5]%Q, [0; 0; -1; 3; 3; 2]%Q) /\
+  (* allclose: (1,) against (2,) broadcasts, (2,) against (3,) raises, 1-d against 2-d is False *)
+  (let p1 : points Q := mkNd [1%nat] [(1, 2, 3)] in
+   let p2 : points Q := mkNd [2%nat] [(1, 2, 3); (1, 2, 3)] in
+   let p3 : points Q := mkNd [3%nat] [(1, 2, 3); (1, 2, 3); (1, 2, 3)] in
+   (points_allclose NumQ p1 p2 (atol_default NumQ) 0, points_allclose NumQ p2 p1 (atol_default NumQ) 0,
+    points_allclose NumQ p2 p3 (atol_default NumQ) 0, points_allclose NumQ p1 (mkNd [] [(1, 2, 3)]) (atol_default NumQ) 0,
+    points_allclose NumQ p2 (mkNd [2%nat] [(1, 2, 3); (1 + (1 # 200000000), 2, 3)]) (atol_default NumQ) 0,
+    points_allclose NumQ p2 (mkNd [2%nat] [(1, 2, 3); (1 + (1 # 50000000), 2, 3)]) (atol_default NumQ) 0,
+    points_allclose NumQ (mkNd [2; 1]%nat [(1, 2, 3); (4, 5, 6)]) (mkNd [1; 2]%nat [(1, 2, 3); (4, 5, 6)]) (atol_default NumQ) 0,
+    points_allclose NumQ (mkNd [2; 1]%nat [(1, 2, 3); (1, 2, 3)]) (mkNd [1; 2]%nat [(1, 2, 3); (1, 2, 3)]) (atol_default NumQ) 0))
+  = (inr true, inr true, inl ValueError, inr false, inr true, inr false, inr false, inr true) /\
+  (* closest_point (a tie: the first), distance_pairwise with a prefilled out=, its dimension check *)
+  (closest_point NumQ (mkNd [2; 2]%nat [(3, 0, 0); (0, 2, 0); (0, 0, 2); (1, 1, 1)]%Q) 0 0 0,
+   closest_point NumQ (mkNd [3%nat] [(0, 2, 0); (0, 0, 2); (2, 0, 0)]%Q) 0 0 0) = (inr 3%nat, inr 0%nat) /\
+  (let A : points Q := mkNd [2%nat] [(0, 0, 0); (3, 4, 0)]%Q in
+   let B : points Q := mkNd [3%nat] [(0, 0, 0); (3, 4, 12); (3, 0, 0)]%Q in
+   (distance_pairwise_points NumQ A B None 6 1 (fun l => l),
+    distance_pairwise_points NumQ A B (Some (2%nat, 3%nat, [[99; 99; 99]; [99; 99; 99]]%Q)) 1 2 (@rev _),
+    distance_pairwise_points NumQ P B None 6 1 (fun l => l),
+    distance_pairwise_points NumQ A B (Some (3%nat, 2%nat, [])) 6 1 (fun l => l)))
+  = (inr [[0; 13; 3]; [5; 12; 4]]%Q, inr [[0; 13; 3]; [5; 12; 4]]%Q, inl InvalidDimension, inl InvalidShape).
+Proof. vm_compute. repeat split. Qed.
+Local Close Scope Q_scope.
